@@ -64,7 +64,8 @@ CLAIMS = {
               'snapshot -> loose -> refreshed snapshot returns exactly the bytes of every object stored before its loose lookup, for arbitrary '
               'monotone histories between its observations and an arbitrarily old pinned snapshot), C04_reader_during_a_monotone_run (the five '
               'observations placed after ANY p1<=p1\', p2<=p3<=p4 primitives of a running actor), C04_trace_checker_sound, MAX_RETRIES >= 2 from '
-              'the AST. TIE: the side-condition checker (extracted all_ok_b) accepts the real traces of 18 fixed + generated writer/packer scenarios, '
+              'the AST. C04_bulk_reader_under_concurrency (the bulk generator Lookup.lookup_bulk with a snapshot pinned at any time, every loose file looked at at an instant of its own, a refreshed index, any monotone steps in between: every object acknowledged before is reported with the length of its content, for all thresholds, requests and schedules). ' 
+              'TIE: the side-condition checker (extracted all_ok_b) accepts the real traces of 18 fixed + generated writer/packer scenarios, '
               'the programs reproduce those traces; 300 (thorough 8000) forced schedules of real threads (18 targeted: reader stopped between index '
               'lookup and loose open while the packer commits and unlinks; rest random bursty) with single/bulk/meta/seeking readers. PARTIAL: the '
               'reader protocol is modelled at observation level (Mono.lookup), not as an event program; the interleaving of SEVERAL actors is covered '
